@@ -37,7 +37,7 @@ end Table
 /-- Places where the code deviated from the property.  `asWas` is the code at the pinned snapshot
 (before the `fix:` commits 08b47a6, 56f80b7, 64cd2bb, 2d52c5a in /repo); `asIs` mirrors /repo's current
 HEAD, in which every one of these is repaired.  The tie (harness/c16.go) is against `asIs`. -/
-structure Defects where
+structure NDefects where
   /-- conf.FieldsFromStruct resolves clashes between a struct's own fields and the fields of its
       embedded structs by *declaration order* (merge loop) instead of Go's depth rule -/
   declOrderMerge : Bool
@@ -60,8 +60,8 @@ structure Defects where
   fetchDerefOnce : Bool
   deriving DecidableEq, Repr
 
-def Defects.asWas : Defects := ⟨true, true, true, true, true, true, true, true⟩
-def Defects.asIs : Defects := ⟨false, false, false, false, false, false, false, false⟩
+def NDefects.asWas : NDefects := ⟨true, true, true, true, true, true, true, true⟩
+def NDefects.asIs : NDefects := ⟨false, false, false, false, false, false, false, false⟩
 
 /-! ## Spec: what Go / `reflect` resolve (the selector rule)
 
@@ -175,7 +175,7 @@ def mergeEmbedded (types emb : Table) : Table :=
     if (acc.get? e.1).isSome then acc.set e.1 { ambiguous := true } else acc.set e.1 e.2) types
 
 /-- the loop over the fields of one struct; `rec` is the recursive call, `σ` the map iteration order -/
-def fieldsLoop (d : Defects) (σ : Table → Table) (rec : Ty → Table) : List Field → Table → Table
+def fieldsLoop (d : NDefects) (σ : Table → Table) (rec : Ty → Table) : List Field → Table → Table
   | [], acc => acc
   | f :: fs, acc =>
     let acc := if f.anon then mergeEmbedded acc (σ (rec f.ty)) else acc
@@ -183,7 +183,7 @@ def fieldsLoop (d : Defects) (σ : Table → Table) (rec : Ty → Table) : List 
     fieldsLoop d σ rec fs acc
 
 /-- `FieldsFromStruct` as written (merge loop); fuel bounds the nesting of embedded structs -/
-def fieldsRaw (d : Defects) (σ : Table → Table) : Nat → Ty → Table
+def fieldsRaw (d : NDefects) (σ : Table → Table) : Nat → Ty → Table
   | 0, _ => []
   | n + 1, t =>
     match t.deref.core with
@@ -192,7 +192,7 @@ def fieldsRaw (d : Defects) (σ : Table → Table) : Nat → Ty → Table
 
 /-- the tag the repaired `FieldsFromStruct` enters for a collected name: what `reflect`'s
 `FieldByName` says (the proposed patch) -/
-def resolvedTag (d : Defects) (t : Ty) (n : String) : Option Tag :=
+def resolvedTag (d : NDefects) (t : Ty) (n : String) : Option Tag :=
   match reflField t n with
   | .found f => if d.unexportedAccepted || f.exported then some { ty := some f.ty } else none
   | .ambiguous => some { ambiguous := true }
@@ -200,7 +200,7 @@ def resolvedTag (d : Defects) (t : Ty) (n : String) : Option Tag :=
 
 /-- `conf.FieldsFromStruct`; with `declOrderMerge` repaired every collected name is re-resolved by
 `reflect`'s `FieldByName` -/
-def fieldsFromStruct (d : Defects) (σ : Table → Table) (t : Ty) : Table :=
+def fieldsFromStruct (d : NDefects) (σ : Table → Table) (t : Ty) : Table :=
   let raw := fieldsRaw d σ (t.depth + 1) t
   if d.declOrderMerge then raw else
     raw.keys.filterMap fun n => (resolvedTag d t.deref n).map fun g => (n, g)
@@ -217,7 +217,7 @@ def addMethods (t : Ty) (tbl : Table) : Table :=
   (methodSet t).foldl (fun acc m => acc.set m.1 { ty := some m.2, method := true }) tbl
 
 /-- `conf.CreateTypesTable`; `none` is the nil table of a nil environment -/
-def createTypesTable (d : Defects) (σ : Table → Table) (e : Env) : Option Table :=
+def createTypesTable (d : NDefects) (σ : Table → Table) (e : Env) : Option Table :=
   match e.ty with
   | none => none
   | some t =>
@@ -235,7 +235,7 @@ inductive NameErr where
   deriving DecidableEq, Repr
 
 /-- `IdentifierNode` in strict mode (what `expr.Env` sets), not nil-safe: the type or the error -/
-def identType (d : Defects) (tbl : Table) (name : String) : Except NameErr (Option Ty) :=
+def identType (d : NDefects) (tbl : Table) (name : String) : Except NameErr (Option Ty) :=
   match tbl.get? name with
   | some g =>
     if g.ambiguous then .error .ambiguous
@@ -268,20 +268,20 @@ def firstSome {α β : Type} (f : α → Option β) : List α → Option β
 /-- can the string constant be used as a key of a map with this key type?
 `MapIndex(reflect.ValueOf(name))` needs `string` to be assignable to the key type; the repaired
 `fetch` converts the constant to a defined string key type. -/
-def stringKeyOk (d : Defects) (k : Ty) : Bool :=
+def stringKeyOk (d : NDefects) (k : Ty) : Bool :=
   k == .string || k.isEmptyIface || (!d.mapKeyExact && k.kind == .string)
 
 def Ty.mapKey? (t : Ty) : Option Ty := match t.core with | .map k _ => some k | _ => none
 
 /-- the value `fetch` looks into: as written, through one pointer when it points to a struct;
 repaired, through every pointer level (as the checker assumes) -/
-def Ty.fetchBase (d : Defects) (t : Ty) : Ty :=
+def Ty.fetchBase (d : NDefects) (t : Ty) : Ty :=
   if d.fetchDerefOnce then
     (if t.kind == .ptr && t.derefOnce.kind == .struct then t.derefOnce else t)
   else t.deref
 
 /-- `fieldType` of checker/types.go -/
-def fieldType (d : Defects) : Nat → Ty → String → Option Ty
+def fieldType (d : NDefects) : Nat → Ty → String → Option Ty
   | 0, _, _ => none
   | n + 1, t, name =>
     let t := t.deref
@@ -301,7 +301,7 @@ def fieldType (d : Defects) : Nat → Ty → String → Option Ty
     | _ => none
 
 /-- `methodType` of checker/types.go: (type, is a method with receiver) -/
-def methodType (d : Defects) : Nat → Ty → String → Option (Ty × Bool)
+def methodType (d : NDefects) : Nat → Ty → String → Option (Ty × Bool)
   | 0, _, _ => none
   | n + 1, t, name =>
     match methodByName t name with
@@ -331,7 +331,7 @@ What a run on a *fully populated* value of the given type does with a name: `som
 a slot of static type `τ` is produced; `none` — the run fails ("cannot fetch …", a reflect panic). -/
 
 /-- `fetch(from, name)` for a non-environment value of static type `t` -/
-def fetchTy (d : Defects) (t : Ty) (name : String) : Option Ty :=
+def fetchTy (d : NDefects) (t : Ty) (name : String) : Option Ty :=
   let t := t.fetchBase d
   match t.core with
   | .map k v => if stringKeyOk d k then some v else none
@@ -342,7 +342,7 @@ def fetchTy (d : Defects) (t : Ty) (name : String) : Option Ty :=
   | _ => none
 
 /-- top-level identifier: `OpFetchMap` for a `map[string]interface{}` environment, `fetch(env, name)` otherwise -/
-def fetchEnv (d : Defects) (e : Env) (name : String) : Option (Option Ty) :=
+def fetchEnv (d : NDefects) (e : Env) (name : String) : Option (Option Ty) :=
   match e.ty with
   | none => none
   | some t =>
@@ -362,7 +362,7 @@ def fetchEnv (d : Defects) (e : Env) (name : String) : Option (Option Ty) :=
 
 /-- `FetchFn(from, name)` followed by the call: the callable's type and whether it came from the method
 set; `none` — the run fails -/
-def fetchFnTy (d : Defects) (t : Ty) (entries : List (String × Option Ty)) (name : String) :
+def fetchFnTy (d : NDefects) (t : Ty) (entries : List (String × Option Ty)) (name : String) :
     Option (Ty × Bool) :=
   match methodByName t name with
   | some m => some (m, true)
